@@ -62,7 +62,11 @@ func ErrReceivedMessageFromUnexpectedPeer(peerId string, swapId *SwapId) error {
 type SwapService struct {
 	swapServices *SwapServices
 
-	activeSwaps    map[string]*SwapStateMachine
+	activeSwaps map[string]*SwapStateMachine
+	// lockedChannels holds the normalized channel id every active swap was
+	// locked for. A freshly created swap carries its channel id only after its
+	// first event was handled, the lock has to hold from the start.
+	lockedChannels map[string]string
 	BitcoinEnabled bool
 	LiquidEnabled  bool
 	sync.RWMutex
@@ -74,6 +78,7 @@ func NewSwapService(services *SwapServices) *SwapService {
 	return &SwapService{
 		swapServices:   services,
 		activeSwaps:    map[string]*SwapStateMachine{},
+		lockedChannels: map[string]string{},
 		LiquidEnabled:  services.liquidEnabled,
 		BitcoinEnabled: services.bitcoinEnabled,
 		lastMsgLog:     map[string]string{},
@@ -1008,6 +1013,7 @@ func (s *SwapService) RemoveActiveSwap(swapId string) {
 	defer s.Unlock()
 	delete(s.lastMsgLog, swapId)
 	delete(s.activeSwaps, swapId)
+	delete(s.lockedChannels, swapId)
 }
 
 // lockSwap locks in a swap. This function ensures that we only have one active
@@ -1022,13 +1028,15 @@ func (s *SwapService) lockSwap(swapId, channelId string, fsm *SwapStateMachine) 
 	// normalized form.
 	normalizedChannelId := lightning.Scid(channelId).ClnStyle()
 	for id, swap := range s.activeSwaps {
-		if lightning.Scid(swap.Data.GetScid()).ClnStyle() == normalizedChannelId {
+		if lightning.Scid(swap.Data.GetScid()).ClnStyle() == normalizedChannelId ||
+			s.lockedChannels[id] == normalizedChannelId {
 			return ActiveSwapError{channelId: channelId, swapId: id}
 		}
 	}
 
 	// Add active swap
 	s.activeSwaps[swapId] = fsm
+	s.lockedChannels[swapId] = normalizedChannelId
 	return nil
 }
 
